@@ -2,6 +2,7 @@ package main
 
 import (
 	"fmt"
+	"regexp"
 	"go/token"
 	"go/types"
 	"strings"
@@ -87,7 +88,7 @@ func runS2(c *Ctx, rule string) {
 	c.atLeast(rule, "fields/variables accessed through sync/atomic", len(atomics), 2)
 	plain := map[string]bool{}
 	for _, f := range c.AllFns {
-		if f.Name() == "init" && f.Parent() == nil {
+		if isInitFn(f) {
 			continue
 		}
 		eachInstr(f, func(i ssa.Instruction) {
@@ -638,8 +639,12 @@ func runRequestPathPanics(c *Ctx, rule string) {
 	c.atLeast(rule, "partial operations reachable from table lookups", n, 1)
 }
 
+var tmpRe = regexp.MustCompile(`(@?\bt\d+\b)`)
+
+// shortPath renders a value for use in a construct key: SSA register names are
+// replaced, since keys must not depend on instruction numbering.
 func shortPath(v ssa.Value) string {
-	p := accessPath(v)
+	p := tmpRe.ReplaceAllString(accessPath(v), "")
 	if len(p) > 60 {
 		p = p[:60]
 	}
